@@ -702,6 +702,17 @@ def translate(rep, ex: Explorer):
                             return val
                         if g == ("empty", it) or g == ("empty", ("members", it)):
                             return not val
+                    if g[0] in ("empty", "truthy") and isinstance(g[1], tuple) and g[1][:1] == ("list",):
+                        # emptiness of a list assembled from the accepted / rejected positions of the triple
+                        nonempty = False
+                        for sg2 in g[1][1]:
+                            if sg2[0] == "one":
+                                nonempty = True
+                            elif sg2[0] == "each" and sg2[3] == PTRUE and sg2[2][0] == "members" and sg2[2][1][:2] == ("item", ("elem", tb, "triple")) and sg2[2][1][2] in (("c", 1), ("c", 2)):
+                                nonempty = nonempty or (ne1 if sg2[2][1][2] == ("c", 1) else ne2)
+                            else:
+                                raise AnalysisError(f"{ssite}: unrecognised summand guard {show_pred(g)[:160]}")
+                        return (not nonempty) if g[0] == "empty" else nonempty
                     raise AnalysisError(f"{ssite}: unrecognised summand guard {show_pred(g)[:160]}")
 
                 app = [sg for sg in eachs if ev(sg[3], sg[1])]
